@@ -845,3 +845,30 @@ Definition main_in_fragment (p : fcprog) : bool :=
   | Some d => islf (fdbody d) && nodup_str (map fdname (fcpdefs p))
   | None => false
   end.
+
+(* ---------- the witness of the second defect class (corpus/fun/c02_unbound_covar.sc as the type
+   checker annotates it; tied to the real CheckedProgram by modelrun like capture_witness) ---------- *)
+Definition ty_box : fty := FDecl "Box" [].
+Definition cl_data (x : string) (ctx : fctx) (body : fterm) : fclause := FClause FData x (fvars ctx) ctx body.
+Definition goto_witness : fcprog :=
+  mkfcprog
+    [mkfdata "Box" [] [mkfctor "A" [mkfb "v" FPrd FI64]; mkfctor "E" [mkfb "k" FCns FI64]]]
+    []
+    [mkfdef "h" [mkfb "b" FPrd ty_box] ty_box
+       (FCase
+          (FParen
+             (FCase (v_prd "b" ty_box) []
+                [cl_data "A" [mkfb "v" FPrd FI64] (FCtor "A" [FOp (v_prd "v" FI64) FSum (FLit 1)] (Some ty_box));
+                 cl_data "E" [mkfb "j" FCns FI64] (FCtor "A" [FLit 0] (Some ty_box))]
+                (Some ty_box)))
+          []
+          [cl_data "A" [mkfb "v" FPrd FI64] (FCtor "A" [FOp (v_prd "v" FI64) FSum (FLit 2)] (Some ty_box));
+           cl_data "E" [mkfb "k" FCns FI64] (FGoto "k" (FLit 3) (Some ty_box))]
+          (Some ty_box));
+     mkfdef "main" [] FI64
+       (FPrint true
+          (FCase (FCall "h" [FCtor "A" [FLit 1] (Some ty_box)] (Some ty_box)) []
+             [cl_data "A" [mkfb "v" FPrd FI64] (v_prd "v" FI64);
+              cl_data "E" [mkfb "k" FCns FI64] (FLit 0)]
+             (Some FI64))
+          (FLit 0) (Some FI64))].
